@@ -264,7 +264,7 @@ def timePipeline : Pipeline Attr where
     | ls => [nnDistances]
     | lsTime => [nnDistances, d, ls, mu]
     | covFunc => [ls, lsTime]
-    | landmarks => [ls, lsTime, nLandmarks]
+    | landmarks => [gpType, ls, lsTime, nLandmarks]
     | lp => [covFunc, gpType, landmarks]
     | l => [covFunc, gpType, landmarks, lp, rank]
     | initialValue => [nnDistances, d, mu, l]
